@@ -167,6 +167,10 @@ func runC06(c *Ctx) {
 					if len(x.Results) == 1 && types.ExprString(x.Results[0]) == "true" {
 						marks = true // a root predicate answers true
 					}
+				case *ast.AssignStmt:
+					if len(x.Rhs) == 1 && types.ExprString(x.Rhs[0]) == "true" {
+						marks = true // a root flag is set (the flag form is decided by rootViaFlag)
+					}
 				}
 				return true
 			})
